@@ -296,7 +296,9 @@ pub fn gen(seed: u64, cases: usize, flavour: &str, path: &str) {
                     g.stats.bump("DEP");
                 }
                 2 => {
-                    let e = *g.rng.pick(&["cash", "cash+f4602678819172646912", "f4632233691727265792", "mid"]);
+                    // whole balance, just above it (0.5, 0.004, 0.001, 1e-9), just below it, a fixed amount, half-way to liquidation value
+                    let e = *g.rng.pick(&["cash", "cash+f4602678819172646912", "f4632233691727265792", "mid",
+                        "cash+f4571261708172110332", "cash+f4562254508917369340", "cash+f4472406533629990549", "cash+f13785626545772145148"]);
                     g.line(&format!("WD {e}"));
                     g.stats.bump("WD");
                 }
@@ -325,7 +327,8 @@ pub fn gen(seed: u64, cases: usize, flavour: &str, path: &str) {
                     g.stats.bump("CHECK");
                 }
                 9 | 14 => {
-                    let e = *g.rng.pick(&["cash+f4607182418800017408", "cash+f4636737291354636288", "liq", "liq+f4602678819172646912", "mid", "cash+f4652007308841189376", "short", "cash", "f4632233691727265792"]);
+                    let e = *g.rng.pick(&["cash+f4607182418800017408", "cash+f4636737291354636288", "liq", "liq+f4602678819172646912", "mid", "cash+f4652007308841189376", "short", "cash", "f4632233691727265792",
+                        "cash+f4562254508917369340", "liq+f4562254508917369340", "liq+f13785626545772145148"]);
                     g.line(&format!("LIQ {e}"));
                     g.stats.bump("LIQ");
                 }
